@@ -65,6 +65,11 @@ let init () =
   register "join_poly_hyp" (function
     | w :: dx :: dy :: rest -> b_out (Join.poly_hyps (pts_in rest) (z_in w) (pt dx dy))
     | _ -> "BAD-ARGS");
+  (* join_tri_fused w align fill x1 y1 x2 y2 x3 y3: pixels() and draw() see the same sequence of lines (Model/JoinTri.v tri_fused) *)
+  register "join_tri_fused" (function
+    | [w; al; fl; a; b; c; d; e; f] ->
+        b_out (JoinTri.tri_fused ((pt a b, pt c d), pt e f) (z_in w) (al_in al) (fl = "1"))
+    | _ -> "BAD-ARGS");
   register "join_tri_hyp" (function
     | [w; al; dx; dy; a; b; c; d; e; f] ->
         b_out (JoinTri.tri_hyps ((pt a b, pt c d), pt e f) (z_in w) (al_in al) (pt dx dy))
